@@ -24,6 +24,8 @@ ASSUMPTIONS = [
 FROZEN = {
     ("tartiflette/coercers/variables.py::variable_coercer", "coerce_error"):
         "errors produced by this request's own input coercion (created inside the coercers called two lines above)",
+    ("tartiflette/directive/builtins/non_introspectable.py::NonIntrospectableDirective.on_schema_execution", "schema"):
+        "writes the constant False, idempotently, before any resolver of the request runs; every request of a schema marked @nonIntrospectable writes the same value",
     ("tartiflette/utils/errors.py::located_error", "graphql_error"):
         "exception objects are created per failure; shared only if user code re-raises a singleton (stated assumption)",
 }
@@ -62,6 +64,8 @@ def check(ck):
             root = s.root or ""
             if f.name == "__init__" or c in ("FRESH", "SELF-PER-REQUEST"):
                 continue  # a local that merely shares a name with a document/schema role but is bound to a fresh container
+            if (f.short, root) in FROZEN:
+                continue
             if root in AST_ROOTS or root in SCHEMA_ROOTS:
                 bad += 1
                 ck.ob(f"{f.qualname}: no write through `{root}` (cached document / schema objects stay read-only after the cache lookup)", False, f, s.node,
